@@ -223,6 +223,44 @@ theorem c13_gen_reservation :
     UriFns.encodeParamAppender = "s_raw_append_canonicalized_param_character" :=
   ⟨rfl, rfl, rfl, rfl, fun safe x => encChar_length_le safe x, rfl, rfl⟩
 
+open AwsVerif.Gen in
+/-- every accessor of uri.h returns the field of its name, and the two `aws_uri_query_string_*` wrappers
+iterate `uri->query_string` (the cursor `Uri.queryBytes` hands to `nextParam` / `queryParams`) -/
+theorem c13_gen_accessors :
+    UriFns.accessors =
+      [("aws_uri_scheme", "scheme"), ("aws_uri_authority", "authority"), ("aws_uri_path", "path"),
+       ("aws_uri_query_string", "query_string"), ("aws_uri_path_and_query", "path_and_query"),
+       ("aws_uri_host_name", "host_name"), ("aws_uri_port", "port"),
+       ("aws_uri_query_string_next_param", "query_string"), ("aws_uri_query_string_params", "query_string")] := rfl
+
+open AwsVerif.Gen in
+/-- the byte_buf.c helpers under the decoder and the port parser, as written now: the hex table is the model's
+`hexToNum`; `aws_byte_cursor_read_hex_u8` needs two bytes, both valid, and yields `(hi << 4) | lo`;
+`s_read_unsigned` refuses exactly the table values ≥ 10 in base 10 -/
+theorem c13_gen_hex_read :
+    (∀ x : UInt8, hexToNum x = ByteBufTables.hexToNumTable.getD x.toNat 0) ∧
+    (∀ n, UriFns.verif_bb_hex_enough n = decide (n ≥ 2)) ∧
+    (∀ hi lo, UriFns.verif_bb_hex_valid hi lo = decide (hi ≠ 255 ∧ lo ≠ 255)) ∧
+    (∀ hi lo : Fin 16, UriFns.verif_bb_hex_value hi.val lo.val = (((UInt8.ofNat hi.val) <<< 4) ||| (UInt8.ofNat lo.val)).toNat) ∧
+    (∀ v : Fin 256, UriFns.verif_bb_not_digit v.val 10 = decide (v.val ≥ 10)) := by
+  refine ⟨fun x => ?_, gen_hex_enough, gen_hex_valid, gen_hex_value, gen_not_digit⟩
+  have := gen_hexTable_all x
+  simpa using this
+
+open AwsVerif.Gen in
+/-- buffer helpers: `aws_byte_buf_reserve` is a no-op exactly when the request is within the capacity (else the
+capacity becomes the request: `reserveRelative`'s `max`); the builder's ignored `aws_byte_buf_append` drops its
+argument exactly when `appendBounded` does; `aws_byte_cursor_advance` never refuses the parser's advances -/
+theorem c13_gen_buffer_guards :
+    (∀ r c, UriFns.verif_bb_reserve_noop r c = decide (r ≤ c)) ∧
+    (∀ r c, max c r = if UriFns.verif_bb_reserve_noop r c then c else r) ∧
+    (∀ (cap : Nat) (buf x : Bytes), buf.length ≤ cap → cap < 2 ^ 64 →
+      appendBounded cap buf x = if ByteBufFns.verif_guard_buf_append cap buf.length x.length then buf else buf ++ x) ∧
+    (∀ len n, n ≤ len → len ≤ 9223372036854775807 → ByteBufFns.verif_guard_cursor_advance len n = false) := by
+  refine ⟨gen_reserve_noop, fun r c => ?_, gen_append_guard, gen_advance_guard⟩
+  rw [gen_reserve_noop]
+  by_cases h : r ≤ c <;> simp [h] <;> omega
+
 /-! ## the hypotheses are satisfiable by non-trivial tuples -/
 
 example : Comp.ok fullExample = true := by decide
